@@ -65,6 +65,21 @@ def faults(q):
                     at(d)["connections"].append({"source": c["source"], "target": c2["target"]})
                     yield (f"extra connection {c['source']}->{c2['target']} at {'.'.join(path) or 'root'} (multiply connected ports)", d)
                     break
+        # … the same with the extra connection listed BEFORE the regular connection of that source (a loader that keys connections by
+        # their source keeps the later one: the surviving set looks well-formed), and a connection simply listed twice
+        for i, c in enumerate(conns):
+            for j, c2 in enumerate(conns):
+                if i != j:
+                    d = copy.deepcopy(q)
+                    at(d)["connections"].insert(i, {"source": c["source"], "target": c2["target"]})
+                    yield (f"extra connection {c['source']}->{c2['target']} listed before the regular one at {'.'.join(path) or 'root'} (multiply connected ports)", d)
+                    break
+        for i, c in enumerate(conns):
+            d = copy.deepcopy(q)
+            at(d)["connections"].insert(i + 1 if i % 2 else len(conns), dict(c))
+            yield (f"connection {c['source']}->{c['target']} listed twice at {'.'.join(path) or 'root'} (multiply connected ports)", d)
+            if i >= 1:
+                break
         # cycle: for an inner connection a.x -> b.y add the ports and a wire back b -> a
         kids = n.get("children", [])
         for c in conns:
@@ -151,6 +166,15 @@ def oracle(case, res, extra):
             res.violation("failing-input", f"compile_routine raised {case.status.split(':')[1]} on a well-formed routine", {"qref": case.qref}, repr(case.err)[:300],
                           "a result or bartiq's own compilation/preprocessing error")
             return
+        if case.status == "ok" and case.sexp is not None:
+            # hypothesis of C17_compile_raises_only_own_errors (`Routine.sound` of the tree preprocessing and child ordering produce):
+            # it must hold on every routine the implementation compiles, otherwise the theorem says nothing about that routine
+            sr = model.run_driver(["sound 0 " + case.sexp])[0]
+            res.stats["model_vs_impl_compared"] += 1
+            res.stats["sound_hypothesis_" + (str(sr[1]) if sr[0] == "ok" else "model-" + str(sr[0]))] += 1
+            if sr[0] != "ok" or sr[1] != "sound":
+                res.disagreement("soundness of wiring (hypothesis of C17_compile_raises_only_own_errors) on a routine the implementation compiles",
+                                 {"qref": case.qref}, str(sr)[:200], "(ok sound)")
         if case.status == "ok":
             cr = case.result.routine
             names = sorted(cr.input_params)
